@@ -36,7 +36,7 @@ RECVS = ["fresh", "lazyrows", "lazycols+2", "lazycols-1", "lazychain", "ufunc", 
 FLOOR_TAGS = ["recv:" + r_ for r_ in RECVS] + ["mask-as-list", "r:int", "r:slice+1", "r:slice+k", "r:slice-", "r:list", "r:array", "r:mask", "r:ell",
               "c:none", "c:int+", "c:int-", "c:slice+1", "c:slice+k", "c:slice-",
               "must-refuse", "sel-has-empty-row", "ellipsis-padded", "e-first", "e-last", "e-mid", "e-consec", "allempty", "norows"]
-FLOOR_MONITORS = ["c02:model-compare", "c02:refusal", "c02:arguments-unchanged", "c02:after-refusal"]
+FLOOR_MONITORS = ["c02:model-compare", "c02:refusal", "c02:arguments-unchanged", "c02:after-refusal", "c02:index-object-reused"]
 FP_STRICT = True       # a floating-point event inside the library that the dense computation does not have is a violation (shard.FpMonitor)
 N_RANDOM = {"quick": 12000, "thorough": 400000}
 
@@ -269,6 +269,24 @@ def run(case):
         return violated("reading ra[%s] changed the array" % short(idx), tags + ["read-mutates"])
     if parent is not None and peek(parent) != parent_before:
         return violated("reading ra[%s] changed the array it was derived from" % short(idx), tags + ["read-mutates"])
+    # the caller refills his index array in place (a reused buffer, a mask updated in place) and asks again with the SAME object
+    if isinstance(rs, np.ndarray) and rs.ndim == 1 and len(rs) >= 2 and rs.flags.writeable:
+        new_rs = np.roll(rs, 1) if rs.dtype != bool else np.logical_not(rs)
+        if not np.array_equal(new_rs, rs):
+            try:
+                kind2, cells2 = model.select_cells(lens, new_rs.copy(), cs, has_cs)
+                exp2 = (kind2, model.cells_to_values(kind2, cells2, pyrows))
+            except model.Refused:
+                exp2 = None
+            if exp2 is not None:
+                saved = rs.copy()
+                rs[...] = new_rs
+                CTX.tick("c02:index-object-reused")
+                o2 = attempt(lambda: observe(ra[idx]))
+                rs[...] = saved
+                if not o2.ok or o2.value != exp2:
+                    return violated("ra[%s] asked a second time with the same index object after the caller refilled it in place (now %s) gave %s, the list of rows gives %s" % (
+                        short(saved), short(new_rs), repr(o2) if not o2.ok else short(o2.value[1]), short(exp2[1])), tags + ["stale-index-object"])
     return held(tags, nontrivial)
 
 
@@ -381,6 +399,12 @@ def _directed():
             yield mk_case(ml, arr, slice(1, None), True)
             yield mk_case(ml, arr, slice(None, None, -1), True, "lazycols+2")
             yield mk_case(ml, list(rows_), slice(None, 1), True, "lazyrows")
+    # long rows (hundreds of cells) read backwards / strided, from selections that include the first cells of the buffer
+    for ll in ([300, 280, 260], [257, 0, 300], [600]):
+        for rs_, cs_ in ((slice(None), slice(None, None, -1)), ([len(ll) - 1, 0], slice(None, None, -1)), (slice(None), slice(None, None, -2)), (slice(None, None, -1), slice(250, None, -1)),
+                         (slice(None), slice(5, None, 3)), (np.array([0, 0], dtype=np.int64), slice(None, 255, -1))):
+            yield mk_case(ll, rs_, cs_, True)
+            yield mk_case(ll, rs_, cs_, True, "lazyrows")
     hl = [(i * 7) % 3 for i in range(130001)]       # more than 100000 rows
     yield mk_case(hl, np.array([i % 5 != 2 for i in range(130001)]))
     yield mk_case(hl, slice(None, None, 1), slice(None, None, -1), True)
